@@ -902,7 +902,9 @@ func (r *runner) life(ri int, run Run, fresh bool) error {
 					done = true
 					break
 				}
-				p.send("c " + strconv.Itoa(g))
+				if !(triggered && waitFor == "persist") { // while the periodic write of the new bit is awaited, later writes are held
+					p.send("c " + strconv.Itoa(g))
+				}
 			}
 			if done || !sessionSeen {
 				break
